@@ -73,6 +73,32 @@ def check_load(mm, d, g, provider, builtin, counter, expect_cached=False, main=0
             elif r.name == "rb":
                 if t is not next(x for x in mm._verif_builtin.defs if x.name == "builtinonly"):
                     bad.append(("builtin reference", fn_of(t, bym)))
+    # visibility: from file i exactly the definitions of i itself and of the files it imports DIRECTLY can be named; the lookup is
+    # repeated after the load through the very provider the resolver used (grammar RREL or the registered one)
+    from textx.model import ObjCrossRef
+    from textx.exceptions import TextXSemanticError
+
+    cls_def = mm["Def"]
+    for i, mod in bym.items():
+        if not mod.refs:
+            continue
+        probe = mod.refs[0]
+        attr = type(probe)._tx_attrs["target"]
+        prov = attr.scope_provider or mm.scope_providers.get("*.*")
+        if prov is None:
+            continue
+        for j in cl:
+            if j not in bym:
+                continue
+            try:
+                got = prov(probe, attr, ObjCrossRef("d%d" % j, cls_def, 0, prov, "ID"))
+            except TextXSemanticError:
+                got = None
+            visible = j == i or j in g[i]
+            if visible and got is not next(x for x in bym[j].defs if x.name == "d%d" % j):
+                bad.append(("definition of a directly imported file not found", "f%d.m -> d%d" % (i, j)))
+            if not visible and got is not None:
+                bad.append(("definition of a file that is not imported directly is visible", "f%d.m -> d%d" % (i, j), fn_of(got, bym)))
     return m, bad
 
 
@@ -164,13 +190,17 @@ def run(ctx):
             for grepo in (False, True):
                 for h in (("again", "other", "again-after-failure") if ctx.tier == "thorough" else ("again", "again-after-failure")):
                     cases.append((g, p, grepo, False, h))
+        if ctx.tier == "quick":
+            for p in ("rrel", "fqn"):
+                for grepo in (False, True):
+                    cases.append((g, p, grepo, False, "again"))
     B = 40
     ctx.pmap(work, [cases[i:i + B] for i in range(0, len(cases), B)])
     ctx.states = ctx.evaluations
     return {
         "rule": "case = (import digraph, provider, global repository on/off, builtin models on/off, history in {one load, same file twice, main then another "
                 "closure file, same file twice with a failing load of another file in between}); all 16 digraphs over 2 files for every combination, all 512 digraphs over 3 files for %s; states = cases, "
-                "transitions = loads; non-trivial = digraph with at least one import" % ("all providers" if ctx.tier == "thorough" else "the PlainNameImportURI provider"),
+                "transitions = loads; non-trivial = digraph with at least one import" % ("all providers" if ctx.tier == "thorough" else "the PlainNameImportURI providers (all histories) and the RREL '+m:' and FQNImportURI providers (history 'same file twice')"),
         "exhaustive": True, "cases": len(cases),
     }, ["file f_i defines d_i and 'common' and references d_j of every directly imported file, its own d_i and 'common'"]
 
